@@ -53,3 +53,13 @@ SPEC_ENTRY = {'title': 'No lost wake-ups: notifications are requested whenever t
               ('C05_drv_owning_late_notify_refuted', 'Proofs/NotifyDrvProofs.v', 'late_notify_refuted', 'moving the notification behind `let value = result?;` (seeded change C05-m4) is refuted: handler error, buffer re-queued, device not suppressing, no notify'),
               ('C05_drv_following_nonvacuous', 'Proofs/NotifyDrvProofs.v', 'following_nonvacuous', 'a driver run across the wrap (65534 -> 65535 silent, -> 0 notified, -> 2 notified) satisfies the hypotheses; its rounds'),
               ('C05_drv_owning_poll_nonvacuous', 'Proofs/NotifyDrvProofs.v', 'poll_notifies_nonvacuous', 'indices started at 65535, event-idx, oversized completion and failing handler: re-queued and notified')]}
+
+# ---- the monitors evaluated on the IMPLEMENTATION's observations, tied to the statements they stand for (Proofs/QueueMonProofs.v):
+# ---- "meaning" = what a true verdict implies, for any input list; "holds_of_model" = no false alarm on code that behaves like the model
+SPEC_ENTRY['imports'] += [m for m in ['Extract.QueueMon', 'Proofs.QueueMonProofs'] if m not in SPEC_ENTRY['imports']]
+SPEC_ENTRY['theorems'] += [
+  ('C05_monitor_156_meaning', 'Proofs/QueueMonProofs.v', 'mon_cosim_sound', 'monitor 156 (co-simulation): never found waiting on an idle device that was not told, Ok, notified when the specification requires it, not notified when suppressed by flag'),
+  ('C05_monitor_157_meaning', 'Proofs/QueueMonProofs.v', 'mon157_sound', 'monitor 157: the used-event index the device reads is the next used index of the driver'),
+  ('C05_monitor_164_meaning', 'Proofs/QueueMonProofs.v', 'mon_blocking_sound', 'monitor 164: a blocking operation never waits in vain on a polling / late device, nor on a notification-driven one when every round had to be announced'),
+  ('C05_monitor_153_meaning', 'Proofs/QueueMonProofs.v', 'mon153_sound', 'monitor 153: without event index the flag the device reads is the setting'),
+]
